@@ -154,6 +154,10 @@ func (g *ExprGen) intLit() mt.Expr {
 		return mt.I(int64(r.Range(100, 999)))
 	case 2:
 		return mt.I(int64(-r.Range(1, 20)))
+	case 3:
+		// magnitudes at which number formatting and integer/float conversions change behaviour, all within ±2^53
+		big := []int64{999999, 1000000, 1000001, 16777216, 16777217, 123456789, 2147483647, 2147483648, 4294967296, 99999999999, 999999999999999, 1000000000000000, 1000000000000001, 4503599627370496, 9007199254740991}
+		return mt.I(big[r.Intn(len(big))])
 	default:
 		return mt.I(int64(r.Range(1, 12)))
 	}
